@@ -15,8 +15,11 @@ pub mod m1 {
       r3(0, 3, 3) <-- r0(1, 1);
       r3(v0, v0, (v0 + 1)) <-- let v0 = 2, r3(v0, (v0 + 1), (v0 + 1)), r1(v0, v0), if (v0 < 6);
       r3(v0, v1, v2) <-- r0(v0, v1) if ((*v0) < 3), r1(v1, v2) if ((*v2) != (*v1));
-      r3(v0, v1, v9) <-- let v9 = 2, r0(v0, v1), r1(v1, v9);
-      r3(v1, v1, ((*v0) + 1)) <-- r1(v0, v1) if ((*v1) < 6), if ((*v0) < 6);
+      r2(v0) <-- r0(v0, v1) if ((*v0) < 3), r1(v1, v2) if ((*v2) != (*v1));
+      r3(v1, ((*v0) + 1), v1) <-- r2(v0) if ((*v0) < 2), r1(v1, v0), if ((*v0) < 6);
+      r3(v1, v1, v1) <-- r0(3, 2), r1(0, v0), r1(v0, v1);
+      r1(3, 3) <-- r1(1, 1);
+      r3(1, 2, 1);
    }
    pub struct Inst { p: Prog, pool: Option<ascent::rayon::ThreadPool> }
    pub fn make(pool: Option<usize>) -> Box<dyn Driver> {
@@ -60,12 +63,11 @@ pub mod m2_ren0 {
       rel2_(x2_) <-- rel0_(0, x0_) if ((*x0_) <= 6) let x1_ = ((*x0_) + 0), let x2_ = 1;
       rel3_(0, x1_) <-- for x0_ in 2..1, rel2_(x0_) if (x0_ < 6), rel1_(x1_);
       rel2_(3) <-- rel3_(x0_, x1_);
-      rel4_(x0_, x8_) <-- if let Some(x9_) = Some(2), rel0_(x0_, x1_), rel3_(x1_, x9_) let x8_ = ((*x0_) + 1);
-      rel4_(x0_, x1_) <-- for x9_ in 0..3, rel5_(x0_, x1_), rel5_(x9_, x1_);
-      rel4_(x0_, x0_) <-- rel1_(0), rel3_(1, x0_), rel1_(x1_) if ((*x0_) != 3);
+      rel4_(x0_, x1_) <-- rel0_(x0_, x1_), rel3_(x0_, x0_), rel0_(x1_, x2_);
+      rel2_(x0_) <-- rel5_(x0_, x1_), rel5_(x0_, x0_), rel5_(x1_, x2_);
+      rel4_(x2_, x1_) <-- if let Some(x0_) = Some(0), rel2_(x1_) if ((*x1_) < 5), rel1_(x2_) if ((*x2_) != 3);
       rel3_(x0_, x2_) <-- rel3_(0, 0), rel4_(0, x0_) if ((*x0_) <= 3), rel3_(((*x0_) + 0), x1_), if let Some(x2_) = Some(((*x0_) + 0));
       rel5_(((*x0_) + 1), x0_) <-- rel5_(x0_, x1_), if ((*x0_) < 6);
-      rel5_(1, x0_) <-- if let Some(x0_) = Some(1);
    }
    pub struct Inst { p: Prog, pool: Option<ascent::rayon::ThreadPool> }
    pub fn make(pool: Option<usize>) -> Box<dyn Driver> {
@@ -147,7 +149,7 @@ pub mod m5_ren1 {
       relation edge(i64, i64);
       relation path(i64, i64);
       relation node(i64, i64);
-      node(a, b) <-- node(a, b), node(1, c), if ((*a) != 2);
+      node(a, b) <-- node(a, b), node(b, b), if ((*b) != 2);
       node(b, b) <-- edge(a, b), node(a, c);
    }
    pub struct Inst { p: Prog, pool: Option<ascent::rayon::ThreadPool> }
@@ -187,8 +189,8 @@ pub mod m6_i32 {
       relation r2(i32, i32);
       r2(100007, v0) <-- r1(v0, v1);
       r2(v0, v0) <-- r2(100021, v0), r2(v0, v1);
-      r2(v0, v1) <-- r2(v0, v1), r2(v1, v2);
-      r2(v0, v1) <-- r2(v0, v1), r2(100007, v2);
+      r2(v0, v1) <-- r2(v0, v1), r2(v1, v1);
+      r2(v0, v2) <-- r1(v0, v1), r2(v1, v2), r1(v2, v3);
       r2(v0, v1) <-- r0(v0, v1), if ((*v0) == 100021);
       r1(100007, 100000);
    }
@@ -231,8 +233,8 @@ pub mod m7_str {
       r1(v0, v0) <-- r0(v0, v1), if (v0.clone() != "s3".to_string());
       r2(v1, v1) <-- r0(v0, v1);
       r3("s2".to_string()) <-- r1("s0".to_string(), v0), r2(v1, v2), if (v0.clone() != "s2".to_string());
-      r1(v0, v0) <-- r0(v0, v1), r2(v1, v9), if (v9.clone() == "s1".to_string());
-      r1(v0, v1) <-- r0(v0, v1), r1(v9, v1);
+      r1(v0, v1) <-- r0(v0, v1), r2(v0, v0), r0(v1, v2), if (v2.clone() == "s1".to_string());
+      r1(v0, v2) <-- r0(v0, v1), r1(v1, v2), r0(v2, v3);
       r3(v1) <-- r0(v0, v1), if (v0.clone() == "s0".to_string());
       r1("s1".to_string(), "s2".to_string());
       r1("s1".to_string(), "s3".to_string());
@@ -274,7 +276,7 @@ pub mod m9 {
       relation r1(i64, i64);
       relation r2(i64, i64, i64);
       r2(v0, v0, v0) <-- r1(v0, 3), if ((*v0) == 1);
-      r2(v0, v1, v9) <-- r1(v0, v1), r1(v1, v9);
+      r2(v0, v1, v0) <-- r1(v0, v1), r1(v1, v1);
       r1(v1, v2) <-- r2(v0, 3, v1), r1(1, v2), if ((*v0) != 3);
       r1(3, 2);
       r2(v2, v1, v5) <-- r1(v0, v1), r2(v2, v1, v3), r2(v4, v1, v5), if ((*v0) != 2);
@@ -303,6 +305,88 @@ pub mod m9 {
    }
 }
 
+#[allow(unused, non_snake_case, clippy::all)]
+pub mod m10_perm0 {
+   use ascent::*;
+   use ascent::aggregators::*;
+   use ascent::lattice::{Dual, set::Set};
+   use crate::common::*;
+   ascent! {
+      pub struct Prog;
+      relation r2(i64);
+      relation r1(i64, i64);
+      relation r3(i64, i64, i64);
+      relation r0(i64, i64);
+      r1(v0, v1) <-- r0(v0, v1), r0(v1, v2), r0(v0, v0);
+      r1(v0, v0) <-- r0(v0, 3);
+      r2(v0) <-- r0(v0, 3);
+      r1(((*v1) + 1), v1) <-- for v0 in 2..3, r0(v1, v0) if ((*v1) != 3), if ((*v1) < 6);
+      r3(v3, v3, v1) <-- r1(v1, v2), r2(v3), if let Some(v0) = Some(2);
+      r2(v0) <-- r0(v0, v1), r0(v1, v1);
+   }
+   pub struct Inst { p: Prog, pool: Option<ascent::rayon::ThreadPool> }
+   pub fn make(pool: Option<usize>) -> Box<dyn Driver> {
+      let pool = pool.map(|n| ascent::rayon::ThreadPoolBuilder::new().num_threads(n).build().unwrap());
+      let p = match &pool { Some(pl) => pl.install(|| Default::default()), None => Default::default() };
+      Box::new(Inst { p, pool })
+   }
+   impl Driver for Inst {
+      fn load(&mut self, rel: usize, rows: &[Sexp], append: bool) -> Option<()> {
+         match rel {
+         0 => { let v: Vec<(i64,i64,)> = parse_rows(rows)?; if append { self.p.r0.extend(v) } else { self.p.r0 = v } },
+         1 => { let v: Vec<(i64,i64,)> = parse_rows(rows)?; if append { self.p.r1.extend(v) } else { self.p.r1 = v } },
+         2 => { let v: Vec<(i64,)> = parse_rows(rows)?; if append { self.p.r2.extend(v) } else { self.p.r2 = v } },
+         3 => { let v: Vec<(i64,i64,i64,)> = parse_rows(rows)?; if append { self.p.r3.extend(v) } else { self.p.r3 = v } },
+            _ => return None,
+         }
+         Some(())
+      }
+      fn run(&mut self) { match &self.pool { Some(pl) => { let p = &mut self.p; pl.install(|| p.run()) }, None => self.p.run() } }
+      fn run_here(&mut self) { self.p.run() }
+      fn run_timeout(&mut self, k: usize) -> Option<bool> { let _ = k; None }
+      fn dump(&self) -> String { vec![dump_rel(0, self.p.r0.iter().map(Row::render).collect()), dump_rel(1, self.p.r1.iter().map(Row::render).collect()), dump_rel(2, self.p.r2.iter().map(Row::render).collect()), dump_rel(3, self.p.r3.iter().map(Row::render).collect())].join(" | ") }
+      fn iters(&self) -> String { format!("iters {}", self.p.scc_iters.iter().map(|x| x.to_string()).collect::<Vec<_>>().join(" ")) }
+   }
+}
+
+#[allow(unused, non_snake_case, clippy::all)]
+pub mod m11_ren1 {
+   use ascent::*;
+   use ascent::aggregators::*;
+   use ascent::lattice::{Dual, set::Set};
+   use crate::common::*;
+   ascent! {
+      pub struct Prog;
+      relation edge(i64, i64);
+      relation path(i64, i64);
+      relation node(i64, i64);
+      node(a, b) <-- node(a, b), edge(a, a), node(b, c);
+      node(1, a) <-- if let Some(a) = Some(3), path(a, b), edge(a, a), for c in 0..4;
+   }
+   pub struct Inst { p: Prog, pool: Option<ascent::rayon::ThreadPool> }
+   pub fn make(pool: Option<usize>) -> Box<dyn Driver> {
+      let pool = pool.map(|n| ascent::rayon::ThreadPoolBuilder::new().num_threads(n).build().unwrap());
+      let p = match &pool { Some(pl) => pl.install(|| Default::default()), None => Default::default() };
+      Box::new(Inst { p, pool })
+   }
+   impl Driver for Inst {
+      fn load(&mut self, rel: usize, rows: &[Sexp], append: bool) -> Option<()> {
+         match rel {
+         0 => { let v: Vec<(i64,i64,)> = parse_rows(rows)?; if append { self.p.edge.extend(v) } else { self.p.edge = v } },
+         1 => { let v: Vec<(i64,i64,)> = parse_rows(rows)?; if append { self.p.path.extend(v) } else { self.p.path = v } },
+         2 => { let v: Vec<(i64,i64,)> = parse_rows(rows)?; if append { self.p.node.extend(v) } else { self.p.node = v } },
+            _ => return None,
+         }
+         Some(())
+      }
+      fn run(&mut self) { match &self.pool { Some(pl) => { let p = &mut self.p; pl.install(|| p.run()) }, None => self.p.run() } }
+      fn run_here(&mut self) { self.p.run() }
+      fn run_timeout(&mut self, k: usize) -> Option<bool> { let _ = k; None }
+      fn dump(&self) -> String { vec![dump_rel(0, self.p.edge.iter().map(Row::render).collect()), dump_rel(1, self.p.path.iter().map(Row::render).collect()), dump_rel(2, self.p.node.iter().map(Row::render).collect())].join(" | ") }
+      fn iters(&self) -> String { format!("iters {}", self.p.scc_iters.iter().map(|x| x.to_string()).collect::<Vec<_>>().join(" ")) }
+   }
+}
+
 fn main() {
-   common::main_loop(&[("m1", m1::make as common::Factory), ("m2_ren0", m2_ren0::make as common::Factory), ("m4_perm0", m4_perm0::make as common::Factory), ("m5_ren1", m5_ren1::make as common::Factory), ("m6_i32", m6_i32::make as common::Factory), ("m7_str", m7_str::make as common::Factory), ("m9", m9::make as common::Factory)]);
+   common::main_loop(&[("m1", m1::make as common::Factory), ("m2_ren0", m2_ren0::make as common::Factory), ("m4_perm0", m4_perm0::make as common::Factory), ("m5_ren1", m5_ren1::make as common::Factory), ("m6_i32", m6_i32::make as common::Factory), ("m7_str", m7_str::make as common::Factory), ("m9", m9::make as common::Factory), ("m10_perm0", m10_perm0::make as common::Factory), ("m11_ren1", m11_ren1::make as common::Factory)]);
 }
